@@ -334,8 +334,11 @@ def main_check(prop, tier, seed, replay_path=None, jobs=None):
         replay_files.append(path)
         lines.append("VIOLATION property=%s replay=%s" % (prop, path))
         lines.append("  mechanism=%s (%d occurrence(s)): %s" % (v["mechanism"], per_mech.get(v["mechanism"], 1), short(v["message"], 600).replace("\n", " | ")))
+    run_inconclusive = bool(unreached or failures or ev == 0)
     for reason in inconclusive[:12]:
-        lines.append("INCONCLUSIVE property=%s %s" % (prop, short(reason, 500).replace("\n", " | ")))
+        # run-level reasons (monitor never reached, shard failed) decide the verdict; single cases the harness could not judge
+        # are listed (here and in the evidence) but do not turn thousands of judged cases into "inconclusive"
+        lines.append("%s property=%s %s" % ("INCONCLUSIVE" if run_inconclusive else "  unjudged-case", prop, short(reason, 500).replace("\n", " | ")))
 
     wall = time.time() - t0
     coverage = {
